@@ -58,8 +58,10 @@ DoCall ==
            r   == Code(inp, cs, ain, grant, a = "FINISH")
        IN /\ Call(a, ain, grant, FALSE, FALSE, FALSE, InnerRet(r), r.uin, Len(r.out))
           /\ cs' = IF obs'.innerRan THEN r.c ELSE cs
-          /\ outAcc' = IF obs'.innerRan THEN outAcc \o r.out ELSE outAcc
-          /\ done' = (obs'.ret \notin {"OK", "BUF_ERROR"} \/ (obs'.ret = "BUF_ERROR" /\ Generous))
+          /\ outAcc' = IF ~obs'.innerRan THEN outAcc
+                       ELSE IF obs'.ret \in Notifs THEN outAcc \o r.out \o <<NoteMark(obs'.ret, totalIn')>>
+                       ELSE outAcc \o r.out
+          /\ done' = (obs'.ret \notin ({"OK", "BUF_ERROR"} \cup Notifs) \/ (obs'.ret = "BUF_ERROR" /\ Generous))
     /\ phase' = "feed"
     /\ UNCHANGED <<inp, fed, grant, oneShot>>
 
@@ -86,9 +88,9 @@ SliceIndependent ==
 SliceIndependentStrict == done => FinalObs = oneShot
 
 \* consequences used by the conformance side
-TotalsAgree  == totalOut = Len(outAcc)
+TotalsAgree  == totalOut = Len(SelectSeq(outAcc, LAMBDA x : x < 9000))
 NoInternal   == obs.kind = "call" => obs.ret \notin {"TIMED_OUT", "RET_INTERNAL2"}
-Decodable    == (done /\ oneShot[2] = "STREAM_END" /\ inp.opt.bcj = 0) => Len(outAcc) = OutTotal(inp)
+Decodable    == (done /\ oneShot[2] = "STREAM_END" /\ inp.opt.bcj = 0) => Len(SelectSeq(outAcc, LAMBDA x : x < 9000)) = OutTotal(inp)
 
 STypeOK == /\ TypeOK /\ fed \in 0..inp.have /\ totalIn <= fed /\ phase \in {"feed", "space", "call"}
 =============================================================================
